@@ -588,6 +588,11 @@ def judge(pre_xml, msg_xml, post_xml, outcome, warns, exc_mro=()):
             if not _is_merge_error(exc_mro):
                 D.append(Dev('C12', 'foreign-exception', {'exc': list(exc_mro[:2]), 'kind': m.kind}))
         v.sig = ('completed', m.kind, 'raise' if raised else 'ret')
+        # envelope invariants hold in every reachable state, this one included
+        if len(post.metas) > 1:
+            D.append(Dev('C14', 'several-completion-records', {'n': len(post.metas), 'kind': m.kind}))
+        if len(post.rcs) != 1:
+            D.append(Dev('C14', 'roCreate-count', {'n': len(post.rcs), 'kind': m.kind}))
         return v
 
     if m.kind is None or m.kind == 'roCreate' or pre.rc is None:
